@@ -178,6 +178,34 @@ func c01Run(w *core.W) {
 			}
 		}
 	}
+	// F4: scoping skeletons (a reduced slice of C04's product: no padding, every inner shape, update and use)
+	w.Family("F4-scoping")
+	for _, def := range []string{"none", "param", "local"} {
+		for _, inner := range c04InnerOrder {
+			for _, upd := range []string{"none", "assign", "grow-locals-assign"} {
+				for _, use := range []string{"call", "pass", "through-id", "return", "return-array"} {
+					churn := "none"
+					if strings.HasPrefix(use, "return") {
+						churn = "deep"
+					}
+					runSession(w, c04Program(c04Dims{true, 0, def, inner, upd, use, churn}), opt)
+					if w.Expired("time budget reached inside family") {
+						return
+					}
+				}
+			}
+		}
+	}
+	// three-level nesting: the innermost function names a variable of the outermost one (a global by the rules)
+	for _, mid := range []string{"", "y = \"my\"", "x = x"} {
+		for _, shape := range []string{
+			"f = (x, pad) -> {\n  (y) -> {\n    MID\n    (z) -> [x, y, z]\n  }\n}",
+			"f = (pad, x) -> {\n  w = \"fw\"\n  (y) -> {\n    MID\n    (z) -> [x, w, z]\n  }\n}",
+		} {
+			st := []string{"x = \"gx\"", "w = \"gw\"", strings.ReplaceAll(shape, "    MID\n", map[bool]string{true: "", false: "    " + mid + "\n"}[mid == ""]), "a = f(\"ax\", \"ap\")", "b = a(\"ay\")", "b(\"az\")"}
+			runSession(w, st, opt)
+		}
+	}
 	// F2: statement-position product
 	w.Family("F2-statement-position")
 	lv := 1
